@@ -4,6 +4,7 @@ CONSTANTS
   Senders <- S2
   PopMode = "identity"
   MaxSends = 1
+  DirectSenders <- D1
 INVARIANT NoLostUpdate
 INVARIANT OnlySentValues
 INVARIANT NoMoreOftenThanSent
